@@ -201,10 +201,11 @@ def monotone(ctx):
     prog = ctx.prog
     up = prog.get(VC + "update")
     inc = prog.get(VC + "increment")
+    if ctx.config == "plain":
+        # without the `vector-clocks` feature VectorClock is a stub whose update/increment do nothing: the property is about the feature-on build
+        ctx.ob("C15.M", "stub-config", True, "vector clocks are compiled out in this configuration (the calls remain and are checked by C15.E / C15.P)", nontrivial=False)
+        return
     if up is None or inc is None:
-        if ctx.config == "plain":
-            ctx.ob("C15.M", "stub-config", True, "vector clocks are compiled out in this configuration (calls remain; checked by C15.E)", nontrivial=False)
-            return
         ctx.ob("C15.M", "anchor|VectorClock", False, "VectorClock::update/increment not found — rule not established", nontrivial=False)
         return
     # update: element writes come from Ord::max, growth from push
